@@ -39,6 +39,59 @@ def okVal : Option (Outcome Float) → Option (PVal Float)
   | some (.ok v) => some v
   | _ => none
 
+/-- the laws of `LawfulFloatOps`, instantiated with `Float` on given doubles/integers — a *test* of the
+trusted base on the values the generator draws (names of the laws that fail) -/
+def lawFailures (x y z : Float) (i j : Int) : List String :=
+  let imp (a b : Bool) : Bool := !a || b
+  let F := Float
+  let pos (s : F) : Bool := DType.positive s
+  let M : F := FloatOps.maxFinite
+  let checks : List (String × Bool) := [
+    ("same_refl", FloatOps.same x x),
+    ("le_notNaN", imp (FloatOps.le x y) (!FloatOps.isNaN x && !FloatOps.isNaN y)),
+    ("le_refl", imp (!FloatOps.isNaN x) (FloatOps.le x x)),
+    ("le_total", imp (!FloatOps.isNaN x && !FloatOps.isNaN y) (FloatOps.le x y || FloatOps.le y x)),
+    ("le_trans", imp (FloatOps.le x y && FloatOps.le y z) (FloatOps.le x z)),
+    ("lt_iff", imp (!FloatOps.isNaN x && !FloatOps.isNaN y) (FloatOps.lt x y == !FloatOps.le y x)),
+    ("maxFinite_notNaN", !FloatOps.isNaN M),
+    ("neg_maxFinite_notNaN", !FloatOps.isNaN (FloatOps.neg M)),
+    ("neg_max_le_max", FloatOps.le (FloatOps.neg M) M),
+    ("addZero_idem", FloatOps.same (FloatOps.addZero (FloatOps.addZero x)) (FloatOps.addZero x)),
+    ("addZero_ofInt", match (FloatOps.ofInt i : Option F) with
+      | some w => FloatOps.same (FloatOps.addZero w) w
+      | none => true),
+    ("addZero_maxFinite", FloatOps.same (FloatOps.addZero M) M),
+    ("addZero_neg_maxFinite", FloatOps.same (FloatOps.addZero (FloatOps.neg M)) (FloatOps.neg M)),
+    ("addZero_ofGrid", match (FloatOps.ofInt i : Option F) with
+      | some w => imp (pos y) (FloatOps.same (FloatOps.addZero (FloatOps.mul w y)) (FloatOps.mul w y))
+      | none => true),
+    ("round_addZero", FloatOps.round (FloatOps.addZero x) == FloatOps.round x),
+    ("feq_addZero", FloatOps.feq y (FloatOps.addZero x) == FloatOps.feq y x),
+    ("abs_nonneg", imp (!FloatOps.isNaN x) (FloatOps.isNonneg (FloatOps.abs x))),
+    ("mul_notNaN", imp (FloatOps.le (FloatOps.neg M) x && FloatOps.le x M && FloatOps.isFinite y)
+      (!FloatOps.isNaN (FloatOps.mul x y))),
+    ("sub_le", imp (FloatOps.isFinite x && FloatOps.le x y && FloatOps.isNonneg z) (FloatOps.le (FloatOps.sub x z) y)),
+    ("le_add", imp (FloatOps.isFinite y && FloatOps.le x y && FloatOps.isNonneg z) (FloatOps.le x (FloatOps.add y z))),
+    ("ofInt_isSome", imp (decide (-18446744073709551616 ≤ i) && decide (i ≤ 18446744073709551616))
+      (FloatOps.ofInt (F := F) i).isSome),
+    ("ofInt_mono", match (FloatOps.ofInt i : Option F), (FloatOps.ofInt j : Option F) with
+      | some a, some b => imp (decide (i ≤ j)) (FloatOps.le a b)
+      | _, _ => true),
+    ("round_ofInt", match FloatOps.round x with
+      | some k => (FloatOps.ofInt (F := F) k).isSome
+      | none => true),
+    ("round_mono", match FloatOps.round x, FloatOps.round y with
+      | some a, some b => imp (FloatOps.le x y) (decide (a ≤ b))
+      | _, _ => true),
+    ("trunc_of_integral", match FloatOps.round x with
+      | some k => (match (FloatOps.ofInt k : Option F) with
+        | some w => imp (FloatOps.feq w x) (FloatOps.trunc x == some k)
+        | none => true)
+      | none => true),
+    ("div_mono", imp (FloatOps.le x y && FloatOps.isFinite z && pos z) (FloatOps.le (FloatOps.div x z) (FloatOps.div y z))),
+    ("mul_mono", imp (FloatOps.le x y && FloatOps.isFinite z && pos z) (FloatOps.le (FloatOps.mul x z) (FloatOps.mul y z)))]
+  (checks.filter (fun c => !c.2)).map (·.1)
+
 def handle (j : Json) : R Json := do
   let k ← fldStr j "k"
   match k with
@@ -105,6 +158,13 @@ def handle (j : Json) : R Json := do
           ("re1", outcomeToJson (reval (okVal (some mval)) false)), ("re2", outcomeToJson (reval (okVal (some mval)) true)),
           ("call", outcomeToJson (some mcall)), ("recall", outcomeToJson mrecall)]),
         ("judge", jstrs verdict)]
+  | "laws" =>
+    let tuples ← (← fldArr j "tuples").mapM (fun t => do
+      match ← arr t with
+      | [x, y, z, i, k] => return (Float.ofBits (← x.getNat?).toUInt64, Float.ofBits (← y.getNat?).toUInt64,
+          Float.ofBits (← z.getNat?).toUInt64, (← i.getInt?), (← k.getInt?))
+      | _ => throw "bad law tuple")
+    return Json.mkObj [("fail", jarr (tuples.map (fun (x, y, z, i, k) => jstrs (lawFailures x y z i k))))]
   | "total" =>
     let outs ← (← fldArr j "outs").mapM outcomeOfJson
     return Json.mkObj [("judge", jstrs (judgeTotal (outs.filterMap id)))]
